@@ -325,6 +325,7 @@ _dispatch_transform_to_utf16(dispatch_data_t data, int32_t byteOrder)
 		} else if (skip > 0) {
 			src += skip;
 			size -= skip;
+			offset += skip;
 			skip = 0;
 		}
 
